@@ -22,7 +22,7 @@ pub struct ActorRt {
     pub incarnations: u32,
     pub handler_count: u32,
     pub mailbox: Mailbox,
-    pub strategy: Strategy,
+    pub strategy: RStrat,
     pub stream: bool,
     pub timeout: Option<(u32, bool)>,
     pub owning: bool,
@@ -128,7 +128,7 @@ impl CaseCtx {
                 incarnations: 0,
                 handler_count: 0,
                 mailbox: Mailbox::Unbounded,
-                strategy: Strategy::Default,
+                strategy: RStrat::Default,
                 stream: false,
                 timeout: None,
                 owning: false,
